@@ -1059,7 +1059,13 @@ func (f *Frame) unop(in *ssa.UnOp) {
 		if x.X.S.K == SReal {
 			f.set(in, &Val{K: VScalar, T: in.Type(), X: App("-", RealS, x.X)})
 		} else {
-			f.set(in, &Val{K: VScalar, T: in.Type(), X: f.wrap(Neg(x.X), in.Type())})
+			if bits, signed, ok := intBits(in.Type()); ok && f.E.Arith == "wrap" && signed && bits == 64 && !x.X.IsLit() {
+				// "arith wrap": binary signed 64-bit arithmetic (indices, lengths) stays mathematical, but
+				// the negation of a signed 64-bit value is modular (-MinInt64 == MinInt64)
+				f.set(in, &Val{K: VScalar, T: in.Type(), X: f.wrapForce(Neg(x.X), bits, signed)})
+			} else {
+				f.set(in, &Val{K: VScalar, T: in.Type(), X: f.wrap(Neg(x.X), in.Type())})
+			}
 		}
 	case token.XOR:
 		bits, signed, _ := intBits(in.Type())
